@@ -779,18 +779,8 @@ def run(ctx):
                 cases, seen, terms = [], {}, Terms()
         if ctx.quick:
             batches.append((terms, cases, seen))
-        for bnum, (terms, cases, seen) in enumerate(batches):
-            texts = list(seen)
-            if ctx.quick:
-                texts = ctx.rng.sample(texts, min(len(texts), 500))
-            elif len(texts) > 900:
-                texts = ctx.rng.sample(texts, 900)
-            pcases = [parse_case(raw, seen[raw]) for raw in texts]
-            ctx.correspondence("model%d" % bnum, terms.prelude(),
-                               cases + pcases, lambda p: p)
-
         # --------------- tokenizer on random texts, unquote on random texts
-        pcases = [parse_case(raw, slit(raw))
+        rcases = [parse_case(raw, slit(raw))
                   for raw in garbage(ctx.rng, 500 if ctx.quick else 6000)]
         ucases = []
         pool = ["%", "%4", "%41", "%C3%A9", "%c3", "%A9", "%E2%82%AC", "%e2%82",
@@ -804,7 +794,17 @@ def run(ctx):
                            {"kind": "unquote", "text": text}))
             ctx.case(("unquote", text), True)
         ctx.count("model:unquote", len(ucases))
-        ctx.correspondence("random", IMPORTS, pcases + ucases, lambda p: p)
+        for bnum, (terms, cases, seen) in enumerate(batches):
+            texts = list(seen)
+            if ctx.quick:
+                texts = ctx.rng.sample(texts, min(len(texts), 500))
+            elif len(texts) > 900:
+                texts = ctx.rng.sample(texts, 900)
+            pcases = [parse_case(raw, seen[raw]) for raw in texts]
+            extra = rcases + ucases if bnum + 1 == len(batches) else []
+            ctx.correspondence("model%d" % bnum, terms.prelude(),
+                               cases + pcases + extra, lambda p: p)
+
 
         # -------------------------------------------- monitor, real hashes
         session.sha256, digest.sha256, results.sha256 = saved[1:4]
